@@ -222,6 +222,9 @@ func (r *Run) realOp(rw *RealWorld, op string, fn func(res *OpResult)) *OpResult
 				if vp, ok := x.(violationPanic); ok {
 					panic(vp)
 				}
+				if ks, ok := x.(knownStop); ok {
+					panic(ks)
+				}
 				res.Panic = strings.Replace(fmt.Sprintf("%v\n%s", x, trimStack(debugStack())), rw.Root, "", -1)
 			}
 		}()
